@@ -125,6 +125,15 @@ def TEMPLATES():
         ('op:SE3*point', 'X*p', [A, L, L, L, L], lambda a: sm.SE3(T3(a), check=False) * [a[4], a[2], a[1]]),
         ('op:SO3*SO3', 'X*Y', [A, A, A], lambda a: sm.SO3.Rx(a[0]) * sm.SO3.Ry(a[1]) * sm.SO3.Rz(a[2])),
         ('op:SO3*point', 'X*p', [A, A, L], lambda a: (sm.SO3.Rx(a[0]) * sm.SO3.Ry(a[1])) * [a[2], 1, 2]),
+        # pose objects holding several symbolic values
+        ('op:SE3seq.inv', '[X,Y].inv()', [A, L, L, L, A, L, L, L], lambda a: sm.SE3([T3(a[:4]), T3(a[4:])], check=False).inv()),
+        ('op:SE3seq*SE3', '[X,Y]*Z', [A, L, L, L, A, L, L, L], lambda a: sm.SE3([T3(a[:4]), T3(a[4:])], check=False) * sm.SE3.Rx(a[4], t=[a[1], 2, a[7]])),
+        ('op:SE3/SE3seq', 'Z/[X,Y]', [A, L, L, L, A, L, L, L], lambda a: sm.SE3.Ry(a[0], t=[a[5], a[1], 1]) / sm.SE3([T3(a[:4]), T3(a[4:])], check=False)),
+        ('op:SE3seq*point', '[X,Y]*p', [A, L, L, L, A, L, L, L], lambda a: sm.SE3([T3(a[:4]), T3(a[4:])], check=False) * [a[1], a[6], 3]),
+        ('op:SO3seq.inv', '[X,Y].inv()', [A, A, A, A], lambda a: sm.SO3([R3(a[:2]), R3(a[2:])], check=False).inv()),
+        ('op:SO3seq*SO3seq', '[X,Y]*[Y,X]', [A, A, A, A], lambda a: sm.SO3([R3(a[:2]), R3(a[2:])], check=False) * sm.SO3([R3(a[2:]), R3(a[:2])], check=False)),
+        ('SE3.Tx', '[x,y]', [L, L], lambda a: sm.SE3.Tx([a[0], a[1]])),
+        ('SO3.Rx', '[a,b]', [A, A], lambda a: sm.SO3.Rx([a[0], a[1]])),
     ]
     return out
 
